@@ -41,6 +41,8 @@ class _Run:
         self.creator_log = []   # {"key","n","conn","seq","stamp","action"}
         self.execs = []         # one-way executions: {"tok","serial","stamp"}
         self.work = {}          # class key -> virtual seconds a construction takes
+        self.hook_raises = set()    # connection numbers for which the clientDisconnect hook raises
+        self.hook_calls = []    # (connection number, raised)
         self.creator_n = {}     # class key -> invocations so far
         self.scripts = {}       # class key -> list of actions for the 1st, 2nd, ... invocation ("ok" beyond the list)
         self.in_creator = {}    # sim thread idx -> depth
@@ -166,6 +168,20 @@ class Impostor:
     note = _note
 
 
+class _HookDaemon(SV.Daemon):
+    """a daemon with a user clientDisconnect hook that fails for the connections the plan names"""
+
+    def clientDisconnect(self, conn):
+        run = _RUN
+        c = getattr(getattr(conn, "sock", None), "conn", None)
+        bad = c in run.hook_raises
+        run.hook_calls.append((c, bad))
+        if run.sched is not None:
+            run.sched.ev("hook", c, bad)
+        if bad:
+            raise RuntimeError("clientDisconnect hook fails for connection %r" % (c,))
+
+
 class _ProbeLock(S.SimLock):
     """Daemon.create_single_instance_lock with a contention counter (same semantics)"""
 
@@ -217,12 +233,14 @@ class InstWorld(World):
               "single", "session", "multi_class_connection", "preempted_in_getInstance", "session_dropped_while_others_connected",
               "session_dropped_after_reset", "commtimeout", "slow_constructor", "single_creation_longer_than_commtimeout_contended",
               "stalled_in_getInstance", "oneway_served", "oneway_first_call", "oneway_first_then_call_slow_session",
-              "session_dropped_after_oneway_then_disconnect"]
+              "session_dropped_after_oneway_then_disconnect", "daemon_closed_with_open_connections", "served_after_daemon_close",
+              "single_served_after_daemon_close", "session_dropped_although_disconnect_hook_raised", "session_dropped_after_daemon_close"]
     RULE = ("plan = (server type, serializer, 1-3 registered classes out of {single,session,percall} x {truthy, falsy via __len__, "
             "falsy via __bool__, __eq__ always True, __eq__ always False} x {no creator, creator script of ok/raise/None/foreign "
             "object per invocation}, 2-4 clients x 1-3 connections (released or reset by the client; same or new proxy) x 0-4 calls, normal or one-way (a call may address another registered class over "
             "the same connection), construction time 0/0.05/0.9 virtual s per class, COMMTIMEOUT 0 or 0.3 s, optional barrier releasing all "
-            "first calls together, pre-emption and stall probabilities); distinct = "
+            "first calls together, a clientDisconnect hook that raises for chosen connections, optionally daemon.shutdown()/close() while every "
+            "client keeps its last connection open followed by 0-2 more calls on it, pre-emption and stall probabilities); distinct = "
             "distinct interleaving digest; non-trivial = at least two connections were served successfully")
     ASSUMPTIONS = ["a connection has ended for the daemon once the client released it and the server threads have run until they block "
                    "(virtual clock advanced), the one-way calls sent on it have been executed (bounded wait) and no thread is serving an "
@@ -230,6 +248,8 @@ class InstWorld(World):
                    "a finished one-way call thread object is garbage in a real process: what the scheduler's thread table still holds of it "
                    "(bound method, call context) is dropped before instance liveness is judged",
                    "with COMMTIMEOUT the clients never idle longer than 0.01 s on an open connection and their proxies have no timeout",
+                   "calls made after daemon.shutdown()/close() on a connection that was open before may fail or be answered; only answered "
+                   "ones are judged, by the same rules (thread server only: a stopped multiplex loop serves nobody)",
                    "an executed one-way call counts like an answered call; a one-way call that was never executed (creator failed, request "
                    "lost with a reset connection) is not judged",
                    "an instance held only by a garbage cycle counts as dropped (gc.collect() before a leak is reported)",
@@ -240,7 +260,7 @@ class InstWorld(World):
     CHUNK = 100
     SHRINK_LISTS = (["clients", "objs"] + ["clients.%d.sessions" % i for i in range(4)] +
                     ["clients.%d.sessions.%d.calls" % (i, j) for i in range(4) for j in range(3)] +
-                    ["objs.%d.creator" % k for k in range(3)])
+                    ["objs.%d.creator" % k for k in range(3)] + ["hook_raises"] + ["clients.%d.after" % i for i in range(4)])
 
     # ------------------------------------------------------------------ plans
     def gen(self, rng, tier):
@@ -250,6 +270,10 @@ class InstWorld(World):
         else:
             servertype = rng.choice(["thread", "multiplex"])
         commtimeout = rng.choice([0, 0, 0.3])
+        close_then_call = servertype == "thread" and rng.random() < 0.15
+        if close_then_call:
+            commtimeout = 0         # (the survivors idle while the others finish: with COMMTIMEOUT the server would drop them by design)
+        hook_raises = sorted(k for k in range(10) if rng.random() < 0.5) if rng.random() < 0.3 else []
         nobj = rng.choice([1, 1, 2, 2, 3])
         objs = []
         used = set()
@@ -285,8 +309,18 @@ class InstWorld(World):
                     k = "note" if rng.random() < (0.3 if j == 0 else 0.2) else "who"
                     calls.append({"o": o, "k": k, "pause": rng.choice([0, 0, 0, 0.01])})
                 sessions.append({"o": so, "reuse": rng.random() < 0.5, "abort": rng.random() < 0.2, "calls": calls})
-            clients.append({"start": rng.choice([0, 0, 0.01, 0.3]), "sessions": sessions})
-        return {"servertype": servertype, "serializer": rng.choice(SERIALIZERS), "race": race, "commtimeout": commtimeout,
+            cl = {"start": rng.choice([0, 0, 0.01, 0.3]), "sessions": sessions}
+            if close_then_call:
+                cl["after"] = [{"o": rng.randrange(nobj) if rng.random() < 0.3 else sessions[-1]["o"],
+                                "k": "note" if rng.random() < 0.2 else "who", "pause": 0} for _ in range(rng.randint(0, 2))]
+            clients.append(cl)
+        extra = {}
+        if close_then_call:
+            extra["close_then_call"] = rng.choice(["shutdown", "shutdown", "close"])
+        if hook_raises:
+            extra["hook_raises"] = hook_raises
+            extra["pool_min"] = 4       # Pyro's default: idle workers stay (and keep their thread-local call context)
+        return {**extra, "servertype": servertype, "serializer": rng.choice(SERIALIZERS), "race": race, "commtimeout": commtimeout,
                 "objs": objs, "clients": clients,
                 "p_line": rng.choice([0.1, 0.25, 0.5]),
                 "p_block": rng.choice([0.3, 0.6, 1.0]) if race else rng.choice([0.0, 0.3, 0.6, 1.0]),
@@ -308,6 +342,13 @@ class InstWorld(World):
         if plan.get("commtimeout"):
             p = dict(plan)
             p["commtimeout"] = 0
+            yield p
+        if plan.get("close_then_call") == "shutdown":
+            p = dict(plan)
+            p["close_then_call"] = "close"
+            yield p
+        if plan.get("close_then_call"):
+            p = {k: v for k, v in plan.items() if k != "close_then_call"}
             yield p
         if plan["serializer"] != "serpent":
             p = dict(plan)
@@ -392,8 +433,10 @@ class InstWorld(World):
             index.append(hit)
         if not objs or not any(c["sessions"] for c in plan["clients"]):
             return
-        srv = Server(ctx, plan["servertype"], pool=(1, 8), commtimeout=commtimeout)
+        srv = Server(ctx, plan["servertype"], daemon_cls=_HookDaemon, pool=(int(plan.get("pool_min") or 1), 8), commtimeout=commtimeout)
         daemon = srv.daemon
+        run.hook_raises = set(plan.get("hook_raises") or ())
+        closing = plan.get("close_then_call") if plan["servertype"] == "thread" else None   # (a stopped multiplex loop serves nobody)
         daemon.create_single_instance_lock = _ProbeLock(sched)     # same semantics, counts contention (probe only)
         for k, e in enumerate(objs):
             e["oid"] = "o%d" % k
@@ -413,10 +456,11 @@ class InstWorld(World):
 
         race = bool(plan.get("race"))
         expected = sum(1 for c in plan["clients"] if c["sessions"])
-        st = {"arrived": 0, "go": False}
+        st = {"arrived": 0, "go": False, "parked": 0, "closed": False}
         calls = []          # every attempted call
         conns = []          # every connection: {"conn","ci","si","reconnect","ended","leak" (serials alive after the end)}
         problems = []       # things outside the property that wrecked the scenario
+        parked_clients = {}
 
         def arrive():
             st["arrived"] += 1
@@ -439,7 +483,49 @@ class InstWorld(World):
                 sched.sleep(1.0)
             self._forget_finished_oneway_threads(sched)
 
+        def one_call(p, crec, so, c, tok, phase):
+            """one call on the connection; False if the connection broke"""
+            o = eff(c["o"])
+            conn = crec["conn"]
+            kind = c.get("k", "who")
+            rec = {"conn": conn, "key": o["key"], "tok": tok, "foreign": o is not so, "kind": kind, "phase": phase, "inv": sched.stamp()}
+            try:
+                if kind == "note":
+                    if o is so:
+                        p.note(tok)
+                    else:
+                        p._pyroInvoke("note", [tok], {}, flags=PR.FLAGS_ONEWAY, objectId=o["oid"])
+                    rec["out"] = ("sent",)
+                    crec["notes"].append(tok)
+                else:
+                    if o is so:
+                        r = p.who(tok)
+                    else:
+                        r = p._pyroInvoke("who", [tok], {}, objectId=o["oid"])    # another object over the same connection
+                    rec["out"] = ("ok", r)
+            except E.CommunicationError as x:
+                rec["out"] = ("comm", type(x).__name__, str(x)[:160])
+            except Exception as x:  # noqa - error replies of the daemon
+                rec["out"] = ("err", type(x).__name__, str(x)[:160])
+            rec["ret"] = sched.stamp()
+            rec["seq"] = p._pyroSeq
+            calls.append(rec)
+            sched.ev("call", tok, rec["out"][0], rec["out"][1] if rec["out"][0] in ("comm", "err") else repr(rec["out"][1:]))
+            if rec["out"][0] == "comm":
+                return False
+            if c.get("pause"):
+                sched.sleep(c["pause"])
+            return True
+
         def client(ci, cspec):
+            try:
+                client_body(ci, cspec)
+            finally:
+                if closing and not parked_clients.get(ci):
+                    parked_clients[ci] = True
+                    st["parked"] += 1          # (no connection of this client survives: nothing to wait for)
+
+        def client_body(ci, cspec):
             if not race and cspec.get("start"):
                 sched.sleep(cspec["start"])
             prev = None
@@ -465,38 +551,21 @@ class InstWorld(World):
                 if at_barrier:
                     at_barrier = False
                     arrive()
+                broken = False
                 for j, c in enumerate(sess["calls"]):
-                    o = eff(c["o"])
-                    tok = "c%ds%dj%d" % (ci, si, j)
-                    kind = c.get("k", "who")
-                    rec = {"ci": ci, "si": si, "j": j, "conn": conn, "key": o["key"], "tok": tok, "foreign": o is not so,
-                           "kind": kind, "inv": sched.stamp()}
-                    try:
-                        if kind == "note":
-                            if o is so:
-                                p.note(tok)
-                            else:
-                                p._pyroInvoke("note", [tok], {}, flags=PR.FLAGS_ONEWAY, objectId=o["oid"])
-                            rec["out"] = ("sent",)
-                            crec["notes"].append(tok)
-                        else:
-                            if o is so:
-                                r = p.who(tok)
-                            else:
-                                r = p._pyroInvoke("who", [tok], {}, objectId=o["oid"])    # another object over the same connection
-                            rec["out"] = ("ok", r)
-                    except E.CommunicationError as x:
-                        rec["out"] = ("comm", type(x).__name__, str(x)[:160])
-                    except Exception as x:  # noqa - error replies of the daemon
-                        rec["out"] = ("err", type(x).__name__, str(x)[:160])
-                    rec["ret"] = sched.stamp()
-                    rec["seq"] = p._pyroSeq
-                    calls.append(rec)
-                    sched.ev("call", tok, rec["out"][0], rec["out"][1] if rec["out"][0] in ("comm", "err") else repr(rec["out"][1:]))
-                    if rec["out"][0] == "comm":
+                    if not one_call(p, crec, so, c, "c%ds%dj%d" % (ci, si, j), "main"):
+                        broken = True
                         break
-                    if c.get("pause"):
-                        sched.sleep(c["pause"])
+                if closing and si == len(cspec["sessions"]) - 1:
+                    # this connection stays open while the daemon is shut down / closed, and is used again afterwards
+                    st["parked"] += 1
+                    parked_clients[ci] = True
+                    sched.block(lambda: st["closed"], 900.0, "parked")
+                    crec["survivor"] = True
+                    if not broken:
+                        for j, c in enumerate(cspec.get("after") or ()):
+                            if not one_call(p, crec, so, c, "c%da%d" % (ci, j), "after-close"):
+                                break
                 try:
                     if sess.get("abort") and p._pyroConnection is not None:
                         p._pyroConnection.sock.rst()        # the client dies: the server sees a connection reset instead of EOF
@@ -523,6 +592,19 @@ class InstWorld(World):
         if race:
             sched.block(lambda: st["arrived"] >= expected, 600.0, "all-connected")
         st["go"] = True
+        if closing:
+            # every client has finished but keeps its last connection open: stop the daemon, then let them call again
+            sched.block(lambda: st["parked"] >= len(ths), 600.0, "all-parked")
+            try:
+                if closing == "close":
+                    daemon.close()
+                else:
+                    daemon.shutdown()
+            except Exception as x:  # noqa
+                problems.append("daemon.%s() raised %s: %s" % (closing, type(x).__name__, str(x)[:100]))
+            sched.ev("daemon-closed", closing)
+            ctx.probe("daemon_closed_with_open_connections")
+            st["closed"] = True
         for t in ths:
             t.join(600.0)
         for t in ths:
@@ -530,7 +612,7 @@ class InstWorld(World):
             if stt.died:
                 raise S.HarnessError("client thread died: %r" % (stt.died,))
         if any(sched.sim_thread_of(t).state != "done" for t in ths):
-            if not srv.loop_alive():
+            if not srv.loop_alive() and not closing:
                 ctx.disturbed = "daemon loop died: %r" % (srv.loop_death(),)
             elif any(c["action"] != "ok" for c in run.creator_log):
                 # no method of the workload blocks: after a failed creation every later call must still be answered
@@ -546,7 +628,7 @@ class InstWorld(World):
                 break
             sched.sleep(1.0)
         self._forget_finished_oneway_threads(sched)
-        if not srv.loop_alive():
+        if not srv.loop_alive() and not closing:
             ctx.disturbed = "daemon loop died: %r" % (srv.loop_death(),)
             return
         if problems:
@@ -635,6 +717,10 @@ class InstWorld(World):
                 ctx.probe(e["mode"])
                 if rec["foreign"]:
                     ctx.probe("multi_class_connection")
+                if rec["phase"] == "after-close":
+                    ctx.probe("served_after_daemon_close")
+                    if e["mode"] == "single":
+                        ctx.probe("single_served_after_daemon_close")
                 if rec["kind"] == "note":
                     ctx.probe("oneway_served")
                     if first_of_conn[rec["conn"]] is rec:
@@ -644,6 +730,8 @@ class InstWorld(World):
                             ctx.probe("oneway_first_then_call_slow_session")
             elif out[0] == "sent":
                 pass        # not executed (creator failed / request lost with a reset connection): nothing to judge here
+            elif rec["phase"] == "after-close" and out[0] == "comm":
+                ctx.probe("connection_lost_after_daemon_close")     # allowed: only answered calls are judged after the daemon was closed
             elif out[0] == "err":
                 if not failing:
                     if rec["key"] in failed_before:
@@ -756,6 +844,10 @@ class InstWorld(World):
                     ctx.probe("session_dropped_while_others_connected")
                 if c.get("aborted"):
                     ctx.probe("session_dropped_after_reset")
+                if (c["conn"], True) in run.hook_calls:
+                    ctx.probe("session_dropped_although_disconnect_hook_raised")
+                if c.get("survivor"):
+                    ctx.probe("session_dropped_after_daemon_close")
                 lr = last_of_conn.get(c["conn"])
                 if lr is not None and lr["kind"] == "note" and "serial" in lr and by_key[lr["key"]]["mode"] == "session":
                     ctx.probe("session_dropped_after_oneway_then_disconnect")
